@@ -36,13 +36,13 @@ ACTIONS_CORE = ["Cl_Connect", "Srv_Enqueue", "Cl_Send", "Cl_Close", "Cl_Vanish",
 QUICK_MC = [
     ("quick", "Dev={} 1 client, pool 2, heartbeat, echo, ext bc; invariants + liveness", "ok",
      ACTIONS_CORE + ["Ext_Send", "Loop_Timeout", "Loop_AdmitDrop"]),
-    ("quick2", "Dev={} 2 clients x 1 msg, pool 2", "ok", [a for a in ACTIONS_CORE if a != "Loop_Flush"]),
     ("aswritten_n1", "as written, 1 worker, 2 clients, bc replies: all properties", "ok", None),
     ("aswritten_n2", "as written, 2 workers: dispatch + delivery properties", "ok", None),
     ("lockstep", "lock-step sub-behaviours (generation mode)", "ok", None),
     ("quiescent", "quiescent shutdown: QuiescentComplete", "ok", ACTIONS_CORE + ["Cl_Ping", "Loop_RecvCtl"]),
 ]
 THOROUGH_MC = [
+    ("t_quick2", "Dev={} 2 clients x 1 msg, pool 2", "ok", [a for a in ACTIONS_CORE if a != "Loop_Flush"]),
     ("t_uni", "Dev={} 2 clients x <=2 msgs, pool 2, echo", "ok", ACTIONS_CORE),
     ("t_bc", "Dev={} 2 clients, pool 2, bc replies + ext unicast", "ok", None),
     ("t_hb", "Dev={} 2 clients, pool 2, heartbeat", "ok", None),
@@ -92,20 +92,32 @@ def rejected_of(t):
     raise ToolError("trace validation failed unexpectedly (%s %s):\n%s" % (t.violation, t.violated_name, t.out[-3000:]))
 
 
-def validate_runs(ctx, runs, tag, origin, counters):
-    """Trace-validate `runs` (list of event lists). Dev={} first; rejected runs are re-examined with the
-    pool as written. Returns (accepted, attributed, violations)."""
+def validate_batches(ctx, batches, counters, tag="tr"):
+    """Trace-validate several batches [(origin, runs)] at once. Dev={} first (all chunks concurrently);
+    the rejected runs are re-examined with the pool as written in one more TLC run.
+    Returns {origin: (accepted, attributed, violations)}."""
     wd = vlib.workdir("C12")
-    if not runs:
-        return 0, 0, 0
-    # chunks of bounded size, validated concurrently
-    chunks, cur, n = [], [], 0
-    for r in runs:
-        if cur and n + len(r) > 12000:
+    # globally unique run ids
+    allruns = []
+    origin_of = {}
+    n = 0
+    for origin, runs in batches:
+        for r in runs:
+            n += 1
+            for e in r:
+                e["run"] = n
+            origin_of[n] = origin
+            allruns.append(r)
+    out = {origin: [len(runs), 0, 0] for origin, runs in batches}
+    if not allruns:
+        return {o: tuple(v) for o, v in out.items()}
+    chunks, cur, size = [], [], 0
+    for r in allruns:
+        if cur and size + len(r) > 9000:
             chunks.append(cur)
-            cur, n = [], 0
+            cur, size = [], 0
         cur.append(r)
-        n += len(r)
+        size += len(r)
     if cur:
         chunks.append(cur)
     paths = []
@@ -113,40 +125,40 @@ def validate_runs(ctx, runs, tag, origin, counters):
         p = os.path.join(wd, "%s-%d.ndjson" % (tag, i))
         vlib.write_lines(p, [e for r in ch for e in r])
         paths.append(p)
-    with cf.ThreadPoolExecutor(max_workers=4) as ex:
+    with cf.ThreadPoolExecutor(max_workers=5) as ex:
         res = list(ex.map(lambda ip: trace_tlc(ip[1], False, "%s%d" % (tag, ip[0])), enumerate(paths)))
-    byrun = {r[0]["run"]: r for r in runs}
+    byrun = {r[0]["run"]: r for r in allruns}
     rejected = []
     for i, t in enumerate(res):
-        ctx.add_tlc("trace validation %s chunk %d (Dev={})" % (origin, i), t)
+        ctx.add_tlc("trace validation chunk %d: %d runs, %d records (Dev={})" % (i, len(chunks[i]), sum(len(r) for r in chunks[i])), t)
         rejected += rejected_of(t)
     for p in paths:
         os.remove(p)
-    attributed = violations = 0
     if rejected:
-        # second opinion: the pool as written
         rr = [byrun[b["run"]] for b in rejected if b["run"] in byrun]
         p = os.path.join(wd, "%s-aw.ndjson" % tag)
         vlib.write_lines(p, [e for r in rr for e in r])
         t2 = trace_tlc(p, True, tag + "aw")
         os.remove(p)
-        ctx.add_tlc("trace validation %s, rejected runs re-examined (Dev={InvocationInversion})" % origin, t2)
+        ctx.add_tlc("trace validation: %d rejected runs re-examined (Dev={InvocationInversion})" % len(rr), t2)
         still = {b["run"]: b for b in rejected_of(t2)}
         for b in rejected:
             run = b["run"]
+            origin = origin_of.get(run, "?")
+            out[origin][0] -= 1
             if run in still:
                 b2 = still[run]
-                violations += 1
+                out[origin][2] += 1
                 ctx.violation("%s run %s: %s at record %s %s%s" % (
                     origin, run, b2["why"], b2["idx"], json.dumps(b2["rec"]), (" properties " + ",".join(b2["inv"])) if b2["inv"] else ""),
                     {"kind": "trace", "origin": origin, "verdict": b2, "events": byrun.get(run, [])})
             else:
-                attributed += 1
+                out[origin][1] += 1
                 counters.setdefault("inversion_examples", [])
                 if len(counters["inversion_examples"]) < 3:
-                    counters["inversion_examples"].append({"run": run, "first_overtaking_start": b["rec"]})
+                    counters["inversion_examples"].append({"origin": origin, "first_overtaking_start": b["rec"]})
                 ctx.violation(WHAT_DEV, {"kind": "trace", "origin": origin, "verdict": b, "events": byrun.get(run, [])}, dev=DEV)
-    return len(runs) - len(rejected), attributed, violations
+    return {o: tuple(v) for o, v in out.items()}
 
 
 def harness_random(binp, nruns, first, maxc, seed_shift):
@@ -177,7 +189,7 @@ def nontrivial(run):
     return len(adm) >= 2 and any(e["ev"] == "Loop_RecvMsg" for e in run) and any(e["ev"] == "Loop_Remove" for e in run)
 
 
-def gen(cfg, simulate=None, depth=None, tag="gen", seed_val=None):
+def gen(cfg, simulate=None, depth=None, tag="gen", seed_val=None):  # noqa
     return run_tlc("Gen_WsAsyncApp.tla", cfg, D, workers=1, simulate=simulate, depth=depth, seed_val=seed_val,
                    timeout=1500, work_id="c12-" + tag, heap="3g")
 
@@ -296,7 +308,37 @@ def selftest(ctx, binp, good_runs, behaviours):
         r[i]["c"] = r[i]["c"] % 8 + 1
         return True
 
-    for name, f in (("message id altered", m_msgid), ("Loop_Remove dropped", m_drop_remove),
+    def closed_removed_client(r):
+        closed = [e["c"] for e in r if e["ev"] == "C_Close"]
+        for c in closed:
+            if any(e["ev"] == "Loop_RecvErr" and e["c"] == c for e in r) and any(e["ev"] == "C_Rx" and e["c"] == c for e in r):
+                return c
+        return None
+
+    def m_lost_rx(r):
+        c = closed_removed_client(r)
+        if c is None:
+            return False
+        i = max(k for k, e in enumerate(r) if e["ev"] == "C_Rx" and e["c"] == c)
+        del r[i]
+        return True
+
+    def m_lost_message(r):
+        i = first(r, "C_Close")
+        if i is None:
+            return False
+        c = r[i]["c"]
+        if not any(e["ev"] == "Loop_RecvErr" and e["c"] == c for e in r):
+            return False
+        n = sum(1 for e in r if e["ev"] == "C_Send" and e["c"] == c)
+        e = copy.deepcopy(r[i])
+        e["ev"], e["m"], e["n"] = "C_Send", n + 1, 1
+        r.insert(i, e)
+        return True
+
+    for name, f in (("a written message never received by a client that read to EOF", m_lost_rx),
+                    ("a sent message never dispatched", m_lost_message),
+                    ("message id altered", m_msgid), ("Loop_Remove dropped", m_drop_remove),
                     ("disconnect dispatched twice", m_dup_disconnect), ("message dispatched before connect", m_msg_before_admit),
                     ("broadcast misses a member", m_bcast_member), ("unicast written to another client", m_uni_wrong),
                     ("handler invoked twice", m_invoke_twice), ("reception by another client", m_rx_wrong)):
@@ -339,16 +381,24 @@ def run(tier, replay):
     if replay:
         return run_replay(ctx, binp, replay)
 
-    # ---- 1. model checking --------------------------------------------------------------------------
+    # ---- 1. every TLC job that does not need the implementation, concurrently ---------------------------
     jobs = list(QUICK_MC) + (THOROUGH_MC if thorough else [])
-    with cf.ThreadPoolExecutor(max_workers=3) as ex:
+    n_ideal = 250 if thorough else 40
+    n_asw = 250 if thorough else 40
+    sims = (("Gen_WsAsyncApp_sim_ideal.cfg", n_ideal, True, "lock-step replay (repaired-pool behaviours)"),
+            ("Gen_WsAsyncApp_sim_aswritten.cfg", n_asw, False, "lock-step replay (as-written behaviours)"))
+    with cf.ThreadPoolExecutor(max_workers=4) as ex:
         futs = {}
-        for name, note, exp, cover in jobs:
+        fw = ex.submit(gen, "Gen_WsAsyncApp_inversion.cfg", None, None, "inv")
+        fs = {cfg: ex.submit(gen, cfg, num, 220, "sim" + str(i), vlib.seed()) for i, (cfg, num, _, _) in enumerate(sims)}
+        for name, note, exp, cover in sorted(jobs, key=lambda j: not j[0].startswith("t_")):
             big = name.startswith("t_")
-            futs[name] = ex.submit(mc, name, 6 if big else 3, cover is not None, 3000 if big else 900)
+            futs[name] = ex.submit(mc, name, 4 if big else 3, cover is not None, 3000 if big else 900)
         for name, kind in MUST_VIOLATE:
             futs[name] = ex.submit(mc, name, 1, False, 600)
         results = {k: f.result() for k, f in futs.items()}
+        g = fw.result()
+        simres = {k: f.result() for k, f in fs.items()}
     for name, note, exp, cover in jobs:
         r = results[name]
         ctx.add_tlc("MC_WsAsyncApp_%s: %s" % (name, note), r)
@@ -362,8 +412,8 @@ def run(tier, replay):
             raise ToolError("model lost sensitivity: MC_WsAsyncApp_%s.cfg no longer violates its invariant" % name)
     ctx.cov["exhaustive"] = True
 
+    batches = []
     # ---- 2a. the inversion witness, forced on the real code ----------------------------------------------
-    g = gen("Gen_WsAsyncApp_inversion.cfg", tag="inv")
     ctx.add_tlc("witness search: shortest behaviour with message(c,1) started before connect(c) (pool as written, 2 workers)", g)
     if g.violation != "invariant" or g.violated_name != "InversionWitness" or not g.prints:
         raise ToolError("TLC did not produce the inversion witness: %s" % g.out[-2000:])
@@ -371,23 +421,13 @@ def run(tier, replay):
     wruns, wres = replay_and_judge(ctx, binp, [witness], "gated inversion witness", counters, strict=False)
     exhibited = bool(wres[0]["ok"] and wres[0]["start_order_differs_from_dispatch_order"])
     ctx.add_part("inversion witness", steps=len(witness["steps"]), forced_on_real_code=exhibited,
-                 schedule=[s for s in witness["steps"] if s["a"].startswith("Worker_")])
-    acc, att, vio = validate_runs(ctx, wruns, "wit", "gated inversion witness", counters)
-    if exhibited and att != 1 and vio == 0:
-        raise ToolError("the forced inversion was not attributed by the trace spec")
-    ctx.cov["traces_validated_against_impl"] += len(wruns)
+                 schedule=[s["a"] + " " + json.dumps(s["task"]) for s in witness["steps"] if s["a"].startswith("Worker_")])
+    batches.append(("gated inversion witness", wruns))
 
     # ---- 2b. sampled lock-step behaviours -----------------------------------------------------------------
-    n_ideal = 250 if thorough else 40
-    n_asw = 250 if thorough else 40
     beh_all = []
-    all_runs = []
-    for cfg, num, strict, origin in (("Gen_WsAsyncApp_sim_ideal.cfg", n_ideal, True, "lock-step replay (repaired-pool behaviours)"),
-                                     ("Gen_WsAsyncApp_sim_aswritten.cfg", n_asw, False, "lock-step replay (as-written behaviours)")):
-        if not strict and not exhibited:
-            ctx.add_part(origin, skipped="the tree does not exhibit the deviation")
-            continue
-        s = gen(cfg, simulate=num, depth=220, tag="sim", seed_val=vlib.seed())
+    for cfg, num, strict, origin in sims:
+        s = simres[cfg]
         if s.violation:
             ctx.require_tlc_ok(cfg, s)
             continue
@@ -395,6 +435,9 @@ def run(tier, replay):
         ctx.add_tlc("behaviour sampling %s (%d behaviours)" % (cfg, len(beh)), s)
         if len(beh) < num // 2:
             raise ToolError("generation %s produced only %d behaviours" % (cfg, len(beh)))
+        if not strict and not exhibited:
+            ctx.add_part(origin, skipped="the tree does not exhibit the deviation")
+            continue
         runs, res = replay_and_judge(ctx, binp, beh, origin, counters, strict)
         ok = sum(1 for r in res.values() if r["ok"])
         ctx.add_part(origin, behaviours=len(beh), replayed_exactly=ok,
@@ -402,19 +445,11 @@ def run(tier, replay):
                      steps=sum(len(b["steps"]) for b in beh))
         ctx.cov["evaluations"] += sum(r["iterations"] for r in res.values())
         ctx.cov["traces_validated_against_impl"] += len(beh)
-        ctx.cov["distinct_nontrivial"] += sum(1 for r in runs if nontrivial(r))
         beh_all += beh
-        all_runs += runs
+        batches.append((origin + " log", runs))
         if len(ctx.cov["samples"]) < 2 and beh:
             b = beh[0]
             ctx.sample({"behaviour_steps": [s["a"] + (":%s" % s["c"] if "c" in s else "") for s in b["steps"]][:60]})
-    for n, r in enumerate(all_runs):
-        for e in r:
-            e["run"] = n + 1
-    acc, att, vio = validate_runs(ctx, all_runs, "rep", "lock-step replay log", counters)
-    ctx.cov["evaluations"] += sum(len(r) for r in all_runs)
-    counters["replay_runs_accepted"] = acc
-    counters["replay_runs_attributed"] = att
 
     # ---- 3. free-running random scenarios --------------------------------------------------------------------
     nrand = 360 if thorough else 45
@@ -429,10 +464,18 @@ def run(tier, replay):
         for k, v in s["events"].items():
             stats[k] = stats.get(k, 0) + v
     scen = [x for _, s in outs for x in s["scenarios"]]
-    acc, att, vio = validate_runs(ctx, runs, "rnd", "random scenario", counters)
-    ctx.cov["evaluations"] += len(events)
-    ctx.cov["traces_validated_against_impl"] += len(runs)
-    ctx.cov["distinct_nontrivial"] += sum(1 for r in runs if nontrivial(r))
+    batches.append(("random scenario", runs))
+
+    verdicts = validate_batches(ctx, batches, counters)
+    for origin, rr in batches:
+        ctx.cov["evaluations"] += sum(len(r) for r in rr)
+        ctx.cov["distinct_nontrivial"] += sum(1 for r in rr if nontrivial(r))
+    ctx.cov["traces_validated_against_impl"] += len(runs) + len(wruns)
+    acc, att, vio = verdicts["random scenario"]
+    wacc, watt, wvio = verdicts["gated inversion witness"]
+    if exhibited and watt != 1 and wvio == 0:
+        raise ToolError("the forced inversion was not attributed by the trace spec")
+    ctx.add_part("trace verdicts (accepted with Dev={}, attributed to InvocationInversion, violations)", **{o: list(v) for o, v in verdicts.items()})
     ctx.add_part("random scenarios", runs=len(runs), accepted_dev_none=acc, attributed_to_InvocationInversion=att, violations=vio,
                  events=stats, pools=sorted({x["workers"] for x in scen}), clients=sorted({x["clients"] for x in scen}),
                  heartbeat_runs=sum(1 for x in scen if x["heartbeat"]), internal_app_runs=sum(1 for x in scen if x["internal_app"]),
@@ -466,12 +509,12 @@ def run_replay(ctx, binp, path):
         run = case["events"]
         for e in run:
             e["run"] = 1
-        acc, att, vio = validate_runs(ctx, [run], "rp", "replayed log", {})
-        log("replayed log: accepted=%d attributed=%d violations=%d" % (acc, att, vio))
+        v = validate_batches(ctx, [("replayed log", [run])], {}, tag="rp")
+        log("replayed log: accepted=%d attributed=%d violations=%d" % v["replayed log"])
     elif case.get("kind") == "behaviour":
         runs, res = replay_and_judge(ctx, binp, [case["behaviour"]], "replayed behaviour", {}, strict=True)
         log("replayed behaviour: %s" % json.dumps(res[0])[:2000])
-        validate_runs(ctx, runs, "rp", "replayed behaviour log", {})
+        validate_batches(ctx, [("replayed behaviour log", runs)], {}, tag="rp")
     else:
         log("replay file of kind %s: re-running the model checking part only" % case.get("kind"))
         r = mc(case.get("run", "MC_WsAsyncApp_quick2").replace("MC_WsAsyncApp_", ""), 4, False, 900)
